@@ -46,3 +46,60 @@ package unmarshal
 //@   flag checks=-assert
 //@   loop 3:
 //@     invariant len(tsns) == len(value) && len(value) == len(msg)
+
+// ---------------------------------------------------------------- the row builder (parserDoer.onEntries)
+
+// Rectangular request objects: every column has one value per row.
+//@ spec fn rectSpl(d *model.TimeSamplesData) bool = len(d.MFingerprint) == len(d.MTimestampNS) && len(d.MTimestampNS) == len(d.MMessage) && len(d.MMessage) == len(d.MValue) && len(d.MValue) == len(d.MTTLDays) && len(d.MTTLDays) == len(d.MType)
+//@ spec fn rectTs(d *model.TimeSeriesData) bool = len(d.MDate) == len(d.MLabels) && len(d.MLabels) == len(d.MFingerprint) && len(d.MFingerprint) == len(d.MTTLDays) && len(d.MTTLDays) == len(d.MType)
+
+// Ghost row accounting of one parser: entries handed to onEntries, sample rows
+// already sent downstream. Chunking (flush at 1 MiB) neither drops nor
+// duplicates: sent + buffered == received, before and after every call.
+//@ ghost var rowsIn int
+//@ ghost var rowsSent int
+
+//@ func (*timeSeriesAndSamples).flush [C03]
+//@   ghostset rowsSent = rowsSent + len(t.spl.MTimestampNS)
+//@   modifies rowsSent
+
+//@ func (*timeSeriesAndSamples).reset [C02,C03]
+//@   modifies t.size, t.ts, t.spl
+//@   ensures fresh(t.ts) && fresh(t.spl) && rectSpl(t.spl) && rectTs(t.ts) && len(t.spl.MTimestampNS) == 0 && len(t.ts.MDate) == 0
+//@   ensures t.spl.Size == 0 && t.ts.Size == 0
+
+// Not verified here (hashing / JSON text / shared cache): frame only.
+//@ func fingerprintLabels
+//@   flag function
+//@   modifies nothing
+//@ func encodeLabels
+//@   modifies nothing
+//@ func maybeAddFp
+//@   modifies nothing
+
+//@ func (*parserDoer).onEntries [C02,C03]
+//@   requires sameLen(timestampsNS, message, value, types) && knownTypes(types)
+//@   requires forall i int :: 0 <= i && i < len(labels) ==> len(labels[i]) == 2
+//@   requires rectSpl(p.tsSpl.spl) && rectTs(p.tsSpl.ts) && p.tsSpl.spl != nil
+//@   requires rowsSent + len(p.tsSpl.spl.MTimestampNS) == rowsIn
+//@   ghostset rowsIn = rowsIn + len(timestampsNS)
+//@   modifies rowsIn, rowsSent, p.tsSpl.size, p.tsSpl.ts, p.tsSpl.spl, fields(p.tsSpl.spl), fields(p.tsSpl.ts)
+//@   ensures result == nil
+//@   ensures rectangular: rectSpl(p.tsSpl.spl) && rectTs(p.tsSpl.ts)
+//@   ensures accounted: rowsSent + len(p.tsSpl.spl.MTimestampNS) == rowsIn
+//@   check kept: rowsSent == old(rowsSent) ==> (forall k int :: 0 <= k && k < old(len(p.tsSpl.spl.MTimestampNS)) ==> p.tsSpl.spl.MTimestampNS[k] == old(p.tsSpl.spl.MTimestampNS[k]))
+//@   check row-timestamp: rowsSent == old(rowsSent) ==> (forall k int :: 0 <= k && k < len(timestampsNS) ==> p.tsSpl.spl.MTimestampNS[old(len(p.tsSpl.spl.MTimestampNS)) + k] == timestampsNS[k])
+//@   check row-line: rowsSent == old(rowsSent) ==> (forall k int :: 0 <= k && k < len(timestampsNS) ==> p.tsSpl.spl.MMessage[old(len(p.tsSpl.spl.MTimestampNS)) + k] == message[k])
+//@   check row-value: rowsSent == old(rowsSent) ==> (forall k int :: 0 <= k && k < len(timestampsNS) ==> p.tsSpl.spl.MValue[old(len(p.tsSpl.spl.MTimestampNS)) + k] == value[k])
+//@   check row-type: rowsSent == old(rowsSent) ==> (forall k int :: 0 <= k && k < len(timestampsNS) ==> p.tsSpl.spl.MType[old(len(p.tsSpl.spl.MTimestampNS)) + k] == types[k])
+//@   check row-stream: rowsSent == old(rowsSent) ==> (forall k int :: 0 <= k && k < len(timestampsNS) ==> p.tsSpl.spl.MFingerprint[old(len(p.tsSpl.spl.MTimestampNS)) + k] == fp)
+//@   loop 2:
+//@     modifies elems(tps)
+//@   loop 3:
+//@     modifies mapof(dates), p.tsSpl.spl.Size
+//@   loop 4:
+//@     invariant rectTs(p.tsSpl.ts)
+//@     modifies fields(p.tsSpl.ts)
+//@   loop 5:
+//@     invariant rectTs(p.tsSpl.ts)
+//@     modifies fields(p.tsSpl.ts)
